@@ -85,7 +85,7 @@ claimed = {
    text="Validation and safety part of threshold signatures: BLSReconstructThresholdSignature rejects, with the exact error class, sizes/thresholds out of range, mismatched lists, fewer than t+1 shares, out-of-range and duplicate signers (map-based distinctness proved as a loop invariant) and shares whose length is not 48 (fix F6), and only then calls the C layer with buffers proved large enough ((t+1)*48 bytes, t+1 indices); "
         "the stateful object never returns a threshold signature whose verification under the group key was false (reconstruct-then-verify postcondition `never-an-unverified-signature`), reports not-enough-shares exactly when fewer than t+1 shares are held, and BLSThresholdKeyGen validates its parameters and returns n private / public BLS key shares with truthful identity flags. "
         "The C interpolation path (E1_lagrange_interpolate_at_zero_write, E1_lagrange_interpolate_at_zero, Fr_lagrange_coeff_at_zero, Fr_polynomial_image) is verified from the clang AST for memory safety and frames, and for Fr_lagrange_coeff_at_zero additionally that the 64-bit limb products of the batched index differences never wrap around (`nowrap` obligations under the inductive bound 255^(factors so far), at most 8 factors per limb). "
-        "NOT decided: that the shares are images of one degree-t polynomial, that the value computed by Fr_lagrange_coeff_at_zero is the Lagrange coefficient (sign tracking, the field operations are uninterpreted) and that reconstruction yields the same bytes for every signer subset.",
+        "BLSThresholdKeyGen's shares: the share written for participant x is the Horner value of the generated coefficient vector at x (Fr_polynomial_image: spec function frhorner, loop invariant over the real C loop) and its public key share is the generator times it. NOT decided: that the Horner value is the polynomial sum (group laws), that the value computed by Fr_lagrange_coeff_at_zero is the Lagrange coefficient (sign tracking, the field operations are uninterpreted) and that reconstruction yields the same bytes for every signer subset.",
    note=TRUSTED + " Interpolation correctness is not covered; see text.",
    design="§0.2, §5 C06"),
  "C01": dict(
@@ -149,7 +149,7 @@ claimed = {
  "C08": dict(
    text="Per-instance guarantee/assumption contracts of the DKG: an honest instance broadcasts at most one complaint per dealer (precondition `no own complaint yet` at every call of buildAndBroadcastComplaint) and answers a complaint at most once; "
         "a missing/late/wrong-size/undecodable verification vector, more than t complaints, a wrong-size answer or an unanswered complaint at End disqualify the dealer (postconditions incl. a ghost `visited` set for the map iteration in End); "
-        "plain VSS: validKey implies a valid vector and share, End returns keys only if validKey. Composition across participants (same broadcast view) is a paper step.",
+        "plain VSS: validKey implies a valid vector and share, End returns keys only if validKey, a vector from the dealer - good or bad - is final (a later one is refused and changes nothing); Joint-Feldman End disqualifies every instance with an unanswered complaint before the keys are summed. Composition across participants (same broadcast view) is a paper step.",
    note=TRUSTED + " Channel assumptions and assume-guarantee composition are not machine-checked; C glue contracts (G2_check_log, G2_vector_read_bytes...) are assumed at the cgo call sites; Joint-Feldman loops: per-instance invariant preservation assumed.",
    design="§5 C08"),
  "C09": dict(
